@@ -374,6 +374,26 @@ theorem tsig_of_good (macFn : Writer.Tsig → List UInt8 → List UInt8) (F : St
   rw [← hrest.length, ← List.length_map (f := (·.r)), e5, List.length_append]
   cases F.edns <;> rfl
 
+/-- the decoded flags word is octets 2–3 of the message -/
+theorem decode_flags (b : Bytes) (d : Spec.DMsg) (h : Spec.specDecodeMsg b = some d) :
+    d.flags = Spec.Server.hdr b 2 := by
+  unfold Spec.specDecodeMsg at h
+  split at h
+  · cases h
+  · rename_i hsz
+    split at h
+    · rename_i id fl qd an ns ar h0 h2 _ _ _ _
+      rw [specField16_eq] at h2
+      rw [if_pos (by omega)] at h2
+      repeat' split at h
+      all_goals first | (cases h; done) | skip
+      simp only [Option.some.injEq] at h
+      rw [← h]
+      simp only [Option.some.injEq] at h2
+      rw [← h2]
+      rfl
+    · cases h
+
 /-! ### the three kinds of no-data responses: final writer, `Good`, slots -/
 
 /-- unsigned requests with a verdict the scan decides alone -/
